@@ -125,8 +125,10 @@ def dump_resume(prop, tier, seed, timeout_ms, only=None, **_):
     u.evaluations = res["evaluations"]
     u.distinct = res["scheduler_clones"] + sum(s.get("dumps_resumed", 0) for s in res["samples"])
     u.rule = ("(a) %d scheduler clones (dill) along seeded push/trash/get histories of both schedulers, each drained against its "
-              "original; (b) every resumed dump of 3 configurations (1 shipped with dumping, 2 with a harness-added dumping tagger) "
-              "compared commit by commit (hash of the full global state) with the uninterrupted run; distinct = clones + resumed dumps"
+              "original; (b) every resumed dump (read back from the file the real DumpingOutputHandler.write produced) of 4 runs - the "
+              "shipped dumping configuration, the same with non-default Ewald parameters, 2 configurations with a harness-added "
+              "dumping tagger - compared commit by commit (hash of the full global state) with the uninterrupted run; (c) the run "
+              "with dumping vs the same seeded run without dumping (sequence of distinct global states); distinct = clones + resumed dumps"
               % res["scheduler_clones"])
     u.samples = res["samples"]
     u.detail = "BOUNDED: %d scheduler clones, %d resumed commits compared bit for bit (seed %d)" % (
